@@ -166,6 +166,7 @@ class Session:
         self.cfg = cfg
         self.size = size
         self.scr, self.out = make_screen(colors, False, bce)
+        self.bright = False
         self.scr.register_palette(e for e in PALETTE)  # an Iterable: a one-shot generator here
         self.scr.start()
         self.term = Term(size[0], size[1], codec=enc, bce=True)
@@ -196,7 +197,7 @@ class Session:
             return ("unknown-sequence", f"the terminal did not understand {t.unknown[:3]}")
         if t.scrolls:
             return ("no-scroll", f"the screen scrolled {t.scrolls} line(s)")
-        exp = expected_cells(rows, colors, False, enc)
+        exp = expected_cells(rows, colors, self.bright, enc)
         for y in range(self.size[1]):
             for x in range(self.size[0]):
                 if not cell_ok(t.g[y][x], exp[y][x]):
@@ -292,6 +293,11 @@ def replay_hist(cfg, size, hist):
                 s.clear()
             elif op[0] == "resize":
                 s.resize(tuple(op[1]))
+            elif op[0] == "bright":
+                # the application learns how the terminal shows bright colours after the palette was registered (the screen clears itself)
+                s.scr.set_terminal_properties(bright_is_bold=op[1])
+                s.bright = op[1]
+                s.new_term(s.size)
             elif op[0] == "encoding":
                 # the application switches its output encoding on the live screen (and so does the terminal)
                 urwid.set_encoding(op[1])
@@ -338,6 +344,20 @@ def solid_task(task, ctx: Ctx):
             for hist in ([da, solid], [solid, da], [da, solid, da], [da, ("clear",), solid], [solid, da, solid]):
                 ctx.count("evaluations")
                 run_hist(ctx, cfg, size, hist, "solid")
+    env.reset("utf-8")
+
+
+def props_task(task, ctx: Ctx):
+    """bright_is_bold switched on the live screen (palette already registered), alone and back again, between frames"""
+    cfg, size, tier = task
+    env.reset(cfg[2])
+    fa = frames_for(cfg[2], size, tier, "pair")
+    sa = fa[:: max(1, len(fa) // (16 if tier == "quick" else 48))]
+    for a in sa:
+        da = ("draw", a[0], a[1])
+        for hist in ([("bright", True), da], [da, ("bright", True), da], [("bright", True), da, ("bright", False), da]):
+            ctx.count("evaluations")
+            run_hist(ctx, cfg, size, hist, "bright-is-bold-switched")
     env.reset("utf-8")
 
 
@@ -594,6 +614,7 @@ def run(tier, R):
     R.run_tasks(triple_task, t3, recheck=0.05)
     R.run_tasks(encswitch_task, [(cfg, sizes[0], tier) for cfg in configs(tier) if cfg[1]], recheck=0.05)
     R.run_tasks(solid_task, [(cfg, size, tier) for cfg in configs(tier) for size in sizes], recheck=0.05)
+    R.run_tasks(props_task, [(cfg, sizes[0], tier) for cfg in configs(tier)], recheck=0.05)
     n3 = int(R.ctx.counts["evaluations"]) - n1 - n2
     R.log(f"histories with clear/resize: {n3}")
     th = []
